@@ -100,3 +100,61 @@ Print Assumptions C08_audit_warn_obs.
 Theorem C08_quote_lv_string : forall x, go_quote (lv_string x) = ("""" ++ lv_string x ++ """")%string.
 Proof. exact go_quote_lv_string. Qed.
 Print Assumptions C08_quote_lv_string.
+
+(** ---- composition with the standard (C02), for the shipped evaluator ---- *)
+From PSA Require Import Spec.PSS Spec.P02 Proofs.EndToEnd Proofs.EndToEnd2 Proofs.C02_table.
+
+(** "violates", for the shipped evaluator, is non-compliance with the Pod Security Standards *)
+Theorem C08_violates_is_noncompliance : forall relax x p m,
+  api_valid p = true -> relaxed_for relax p = false -> effective_minor (lv_version x) = Some m ->
+  violates (shipped_evaluator relax) x p = negb (compliant (lv_level x) m p).
+Proof. exact violates_shipped. Qed.
+Print Assumptions C08_violates_is_noncompliance.
+
+(** an evaluated pod request, shipped evaluator: the verdict, the warning and
+    the audit annotation are compliance with the standard (Spec/PSS.v) at the
+    enforce, warn and audit level:version of the namespace.  No hypothesis on
+    label errors or on the fully-privileged short circuit is needed. *)
+Theorem C08_end_to_end : forall c relax r w ls p me ma mw,
+  let pol := spec_policy ls (cf_defaults c) in
+  let resp := fst (validate c (shipped_evaluator relax) r w) in
+  evaluated_object c r w = Some (ls, p, true) ->
+  api_valid p = true -> relaxed_for relax p = false ->
+  effective_minor (lv_version (enforce pol)) = Some me ->
+  effective_minor (lv_version (audit pol)) = Some ma ->
+  effective_minor (lv_version (warn pol)) = Some mw ->
+  rs_allowed resp = compliant (lv_level (enforce pol)) me p
+  /\ (rs_warnings resp = [] <-> rs_allowed resp = false \/ compliant (lv_level (warn pol)) mw p = true)
+  /\ (rs_allowed resp = true -> compliant (lv_level (warn pol)) mw p = false ->
+      exists t, rs_warnings resp = [t] /\ contains (lv_string (warn pol)) t = true)
+  /\ (ann "audit-violations" resp = None <-> compliant (lv_level (audit pol)) ma p = true)
+  /\ (compliant (lv_level (audit pol)) ma p = false ->
+      exists t, ann "audit-violations" resp = Some t /\ contains (lv_string (audit pol)) t = true).
+Proof. exact C08_end_to_end_proof. Qed.
+Print Assumptions C08_end_to_end.
+
+(** the hypotheses are jointly satisfiable: a pod that is baseline- but not
+    restricted-compliant, in a namespace enforcing baseline, auditing at
+    restricted:v1.25 and warning at restricted: allowed, one warning, the audit
+    annotation; and the baseline-violating pod is denied without a warning *)
+Example C08_end_to_end_in_scope :
+  let ls := [(enforce_level_label, "baseline"); (audit_level_label, "restricted");
+             (audit_version_label, "v1.25"); (warn_level_label, "restricted")]%string in
+  let r := e2e_pod_request example_pod_fixed in
+  let w := e2e_world ls in
+  let pol := spec_policy ls (cf_defaults cex_cfg) in
+  let resp := fst (validate cex_cfg (shipped_evaluator false) r w) in
+  let resp' := fst (validate cex_cfg (shipped_evaluator false) (e2e_pod_request example_pod) w) in
+  evaluated_object cex_cfg r w = Some (ls, example_pod_fixed, true)
+  /\ api_valid example_pod_fixed = true /\ relaxed_for false example_pod_fixed = false
+  /\ effective_minor (lv_version (enforce pol)) = Some 32%N
+  /\ effective_minor (lv_version (audit pol)) = Some 25%N
+  /\ effective_minor (lv_version (warn pol)) = Some 32%N
+  /\ compliant (lv_level (enforce pol)) 32 example_pod_fixed = true
+  /\ compliant (lv_level (audit pol)) 25 example_pod_fixed = false
+  /\ compliant (lv_level (warn pol)) 32 example_pod_fixed = false
+  /\ rs_allowed resp = true /\ List.length (rs_warnings resp) = 1
+  /\ is_some (ann "audit-violations" resp) = true
+  /\ compliant (lv_level (enforce pol)) 32 example_pod = false
+  /\ rs_allowed resp' = false /\ rs_warnings resp' = [].
+Proof. vm_compute. repeat split. Qed.
